@@ -432,8 +432,8 @@ func c09PathTokens(p string) []string {
 func c09FromDiff(r *rand.Rand) Case {
 	o := defaultOpts()
 	o.maxDepth = 3
-	o.floats = false
-	l := c08GenDoc(r, o)
+	o.pointerRoute = true
+	l := c08GenDoc(r, o) // (whole and fractional floats included)
 	rr := c08Derive(r, l, o, []string{"n1", "n2", "zz"})
 	if r.Intn(3) == 0 {
 		l, rr = rr, l
@@ -441,7 +441,7 @@ func c09FromDiff(r *rand.Rand) Case {
 	var fail []string
 	var ops []rop
 	pn := guard(func() {
-		mods := *diff.Diff(anyToContainer(l), anyToContainer(rr))
+		mods := c09InnerMods(*diff.Diff(anyToContainer(l), anyToContainer(rr)))
 		for _, m := range mods {
 			obj := xform.DiffMod2PatchOp(m)
 			if obj == nil {
@@ -487,8 +487,8 @@ func c09FromDiff(r *rand.Rand) Case {
 func c09FromDiffOps(r *rand.Rand) Case {
 	o := defaultOpts()
 	o.maxDepth = 3
-	o.floats = false
-	l := c08GenDoc(r, o)
+	o.pointerRoute = true
+	l := c08GenDoc(r, o) // (whole and fractional floats included)
 	rr := c08Derive(r, l, o, []string{"n1", "n2", "zz"})
 	if r.Intn(3) == 0 {
 		l, rr = rr, l
@@ -497,7 +497,7 @@ func c09FromDiffOps(r *rand.Rand) Case {
 	var mods []diff.Modification
 	var ops []string
 	if pn := guard(func() {
-		mods = *diff.Diff(anyToContainer(l), anyToContainer(rr))
+		mods = c09InnerMods(*diff.Diff(anyToContainer(l), anyToContainer(rr)))
 		if len(mods) > 20 {
 			mods = mods[:20]
 		}
@@ -716,3 +716,17 @@ func init() {
 }
 
 var _ = dom.LeafNode
+
+// c09InnerMods drops the modifications whose path starts or ends with the separator (a member with the empty name
+// at either end of the path): the property-path reader leaves such a separator out, and no property says what
+// operation such a modification is to become. An empty name inside a path stays.
+func c09InnerMods(mods []diff.Modification) []diff.Modification {
+	out := make([]diff.Modification, 0, len(mods))
+	for _, m := range mods {
+		if strings.HasPrefix(m.Path, ".") || strings.HasSuffix(m.Path, ".") {
+			continue
+		}
+		out = append(out, m)
+	}
+	return out
+}
